@@ -17,8 +17,8 @@ RULE = ("stratified + seeded random (configuration, sample) pairs inside the doc
         "beyond, total > N t); distinct = hash of (configuration, sample)")
 REQUIRED = [f"contract:NonnegMean.{t}" for t in nn.TESTS] + ["stratum:len1", "stratum:m_to_0", "stratum:m_to_u",
                                                              "stratum:m_above_u", "stratum:m_below_0",
-                                                             "random_order_false"]
-ASSUMPTIONS = ["samples are numpy arrays of dyadic floats in [0,u]; documented exclusions: finite-N SPRT with "
+                                                             "random_order_false", "stratum:nondyadic_runs"]
+ASSUMPTIONS = ["samples are numpy arrays of floats in [0,u] (dyadic in the boundary strata, runs of non-representable values in the nondyadic stratum); documented exclusions: finite-N SPRT with "
                "random_order=False (raises by design), Kaplan-Markov/Wald with finite N",
                "numpy/pandas are trusted"]
 N_CASES = {"quick": 64000, "thorough": 2000000}
@@ -103,7 +103,9 @@ def run_shard(spec, rec):
         combo = nn.COMBOS[i % len(nn.COMBOS)]
         cfg = nn.gen_cfg(rng, combo=combo)
         st = nn.SAMPLE_STRATA[(i // len(nn.COMBOS)) % len(nn.SAMPLE_STRATA)]
-        st, x = nn.gen_sample(rng, cfg, stratum=st)
+        if i % 7 == 6:
+            cfg = nn.gen_cfg(rng, combo=combo, n_max=rng.choice((12, 40, 200)))
+        st, x = nn.gen_sample(rng, cfg, stratum=st, nondyadic=(1.0 if i % 7 == 6 else 0.0))
         if not nn.in_domain(cfg, x):
             continue
         run_case({"cfg": cfg, "x": x, "stratum": st}, rec)
